@@ -1,5 +1,6 @@
 (* C14 — size_limit plugin: bodies are bounded, everything within bounds is untouched.  Statements only. *)
 From Helios Require Import Base.Prelude Model.RespWriter Proofs.WriterProofs Proofs.GzipProofs Proofs.SizeLimitProofs.
+From Helios Require Import Gen.SizeLimitGen Proofs.SizeLimitRefine.
 
 (* the client never receives more than max_response_body body bytes, for EVERY sequence of
    Header().Set/Del, WriteHeader, Write (any partition of the body) and Flush calls of the handler *)
@@ -43,6 +44,30 @@ Theorem C14_transparent :
     view (base_run base0 (sl_transform limit cs)) = view (base_run base0 cs).
 Proof. exact sl_transparent. Qed.
 Print Assumptions C14_transparent.
+
+(* The wrapper machine the theorems above speak of is the source: Gen/SizeLimitGen.v is regenerated from sizelimit.go on every
+   run (limitedResponseWriter's Write, checkLimit, ensureHeaderWritten, WriteHeader, Flush, as functions that append the calls
+   they make on the underlying writer to a log), and for every script of handler calls with byte-slice writes the regenerated
+   methods, followed by the closure's late header, make exactly the calls of sl_transform *)
+Theorem C14_model_is_source :
+  forall limit cs, forallb byte_call cs = true ->
+    slg_after (fold_left slg_step cs (mklimitedResponseWriter 0 limit false false 0 [])) = sl_transform limit cs.
+Proof. exact transform_is_source. Qed.
+Print Assumptions C14_model_is_source.
+
+(* ... a Write is refused (returns an error) exactly when the limit was reached before or this write would cross it *)
+Theorem C14_refusal_is_source :
+  forall w o now n, 0 <= n ->
+    let r := slg_Write (under_accept w) (abs_sl w o) now n in
+    fst r = abs_sl (fst (sl_step w (CWrite (PRaw n)))) (o ++ snd (sl_step w (CWrite (PRaw n))))
+    /\ (snd r <> 0 <-> (sl_reached w = true \/ sl_limit w < sl_written w + n)).
+Proof. exact write_refines. Qed.
+Print Assumptions C14_refusal_is_source.
+
+(* ... and the wrapper type offers no way around Write: of the optional interfaces net/http, httputil.ReverseProxy and
+   http.ResponseController look for, it implements Flush and Hijack only (no ReadFrom, Unwrap, FlushError) *)
+Theorem C14_no_bypass : slg_optional_interfaces = [1; 2].
+Proof. exact interfaces_as_modelled. Qed.
 
 Example C14_nonvacuous :
   sl_transform 5 [CHead 204] = [CHead 204] /\
